@@ -50,9 +50,19 @@ func (f *faultReader) fail() error {
 		return io.EOF
 	case "unexpected":
 		return io.ErrUnexpectedEOF
+	case "temporary":
+		return temporaryErr{}
 	}
 	return errEntropy
 }
+
+// temporaryErr is what a non-blocking or network-backed source keeps answering while it has
+// nothing to give (EAGAIN, a timeout): an error all the same.
+type temporaryErr struct{}
+
+func (temporaryErr) Error() string   { return "resource temporarily unavailable" }
+func (temporaryErr) Temporary() bool { return true }
+func (temporaryErr) Timeout() bool   { return true }
 
 func (f *faultReader) Read(p []byte) (int, error) {
 	if f.pos >= f.k {
@@ -117,6 +127,21 @@ func runCell(c C20Case, cell c20Cell, base *biscuit.Biscuit, priv ed25519.Privat
 			_ = b.AddAuthorityCheck(bridge.ToCheck(ch))
 		}
 		tok, err = b.Build()
+	case "builder-second-build":
+		// one builder, built twice: the first Build takes 32 bytes and succeeds, the fault point
+		// applies to the second Build, which must draw from the same supplied source
+		fr.k = 32 + cell.K
+		b := biscuit.NewBuilder(priv, biscuit.WithRNG(fr))
+		for _, f := range c.Authority.Facts {
+			if e := b.AddAuthorityFact(bridge.ToFact(f)); e != nil {
+				return nil, fr, fmt.Errorf("harness: %w", e), "harness: cannot add fact"
+			}
+		}
+		if first, e := b.Build(); e != nil || first == nil {
+			return nil, fr, fmt.Errorf("harness: %w", e), "harness: the first Build failed although the source delivered 32 bytes"
+		}
+		fr.delivered = nil
+		tok, err = b.Build()
 	case "new":
 		bb := biscuit.NewBlockBuilder(&datalog.SymbolTable{})
 		if e := bridge.AddBlockTo(bb, c.Authority); e != nil {
@@ -152,7 +177,7 @@ func checkC20(c C20Case, rec *obs.Recorder) *obs.Violation {
 	shape := c.Authority.Key() + c.Later.Key()
 	chunks := []int{0, 1, c.Chunk}
 	cells := 0
-	for _, op := range []string{"builder", "builder+keyid", "builder+keyid-first", "new", "append", "append-reloaded"} {
+	for _, op := range []string{"builder", "builder+keyid", "builder+keyid-first", "builder-second-build", "new", "append", "append-reloaded"} {
 		base := fresh
 		if op == "append-reloaded" {
 			base = reloaded
@@ -163,7 +188,7 @@ func checkC20(c C20Case, rec *obs.Recorder) *obs.Violation {
 		}
 		ks = append(ks, 32, 33, 64, 96) // controls: the source fails only after the key material was delivered
 		for _, k := range ks {
-			for _, kind := range []string{"err", "eof", "unexpected"} {
+			for _, kind := range []string{"err", "eof", "unexpected", "temporary"} {
 				for ci, chunk := range chunks {
 					cell := c20Cell{Op: op, K: k, Kind: kind, Chunk: chunk, Inline: (k+ci)%2 == 1}
 					cells++
@@ -192,6 +217,9 @@ func checkC20(c C20Case, rec *obs.Recorder) *obs.Violation {
 						return obs.Violf("%s: independent reader: %v", cell, err)
 					}
 					all := env.All()
+					if len(fr.delivered) < 32 {
+						return obs.Violf("%s: a token was returned, but only %d bytes were drawn from the supplied source for it", cell, len(fr.delivered))
+					}
 					seed := fr.delivered[:32]
 					wantPub := ed25519.NewKeyFromSeed(seed).Public().(ed25519.PublicKey)
 					if !bytes.Equal(all[len(all)-1].NextKey, wantPub) {
@@ -211,7 +239,7 @@ func checkC20(c C20Case, rec *obs.Recorder) *obs.Violation {
 	rec.Count("fault_cells", cells)
 	rec.Label("shape")
 	rec.Sample(map[string]any{"authority": c.Authority.Text(), "later_block": c.Later.Text(), "cells": cells,
-		"cell_space": "op{builder,builder+keyid,builder+keyid-first,new,append,append-reloaded} x k{0..31,32,33,64,96} x failure{err,eof,unexpected} x chunking{all,1 byte," + fmt.Sprint(c.Chunk) + "}"})
+		"cell_space": "op{builder,builder+keyid,builder+keyid-first,builder-second-build,new,append,append-reloaded} x k{0..31,32,33,64,96} x failure{err,eof,unexpected,temporary} x chunking{all,1 byte," + fmt.Sprint(c.Chunk) + "}"})
 	return nil
 }
 
@@ -229,7 +257,7 @@ func drawC20(t *rapid.T) C20Case {
 func TestC20(t *testing.T) {
 	rec := obs.New("C20")
 	defer rec.Flush(true)
-	rec.SetExtra("rule", "fault enumeration: for every generated token shape (authority content, appended content), every operation that draws randomness (Builder.Build with WithRNG alone and combined with WithRootKeyID in either order, biscuit.New, Append on a fresh token, Append on a token reloaded from bytes) x every fault point k in 0..31 (plus controls k = 32, 33, 64, 96) x failure kind (error, io.EOF, io.ErrUnexpectedEOF; reported with the last data or on the next call) x chunking (all at once, one byte at a time, drawn chunk size). k < 32: an error, no token, no panic. k >= 32: the announced next key and the proof are derived from the first 32 delivered bytes and the chain verifies per the reference. Non-trivial = fault strictly inside the key read (k < 32); distinct by (shape, operation, k, kind, chunking). The cell space is enumerated completely for each shape.")
+	rec.SetExtra("rule", "fault enumeration: for every generated token shape (authority content, appended content), every operation that draws randomness (Builder.Build with WithRNG alone and combined with WithRootKeyID in either order, the second Build of one builder whose first Build took 32 bytes, biscuit.New, Append on a fresh token, Append on a token reloaded from bytes) x every fault point k in 0..31 (plus controls k = 32, 33, 64, 96) x failure kind (error, io.EOF, io.ErrUnexpectedEOF, a persistent error whose Temporary() and Timeout() are true; reported with the last data or on the next call) x chunking (all at once, one byte at a time, drawn chunk size). k < 32: an error, no token, no panic. k >= 32: the announced next key and the proof are derived from the first 32 delivered bytes and the chain verifies per the reference. Non-trivial = fault strictly inside the key read (k < 32); distinct by (shape, operation, k, kind, chunking). The cell space is enumerated completely for each shape.")
 	rec.SetExtra("assumptions", []string{"ed25519.GenerateKey reads exactly 32 bytes with io.ReadFull (Go 1.23 standard library)", "Seal draws no randomness"})
 	rec.SetExtra("exhaustive", true)
 	harness.RunWith(t, harness.Spec[C20Case]{ID: "C20", Draw: drawC20, Check: checkC20}, rec)
